@@ -37,7 +37,7 @@ def BOUND(tier):
 
 
 SPECTRA = ["generic", "few", "rankdef", "diag", "identity", "blockdiag", "diagzero"]
-STARTS = ["generic", "eigvec", "inv2", "real", "kernel"]
+STARTS = ["generic", "eigvec", "inv2", "real", "kernel", "tiny-norm", "huge-norm"]
 DTS = [0.1, -0.1, 1.0, -1.0, 0.5j, -0.5j, 2j, -2j]
 TWO = [(0, 0), (1, 0), (0, 1)]
 
@@ -113,6 +113,9 @@ def make_start(A, start, field, rs):
     w, v = np.linalg.eigh(A)
     if start == "generic":
         x = rs.standard_normal(n) + (1j * rs.standard_normal(n) if field == "complex" else 0)
+    elif start in ("tiny-norm", "huge-norm"):
+        # the exponential is linear in v: the relative accuracy must not depend on the norm of the starting vector
+        x = (rs.standard_normal(n) + (1j * rs.standard_normal(n) if field == "complex" else 0)) * (1e-9 if start == "tiny-norm" else 1e7)
     elif start == "eigvec":
         x = v[:, n // 2] * 1.7
     elif start == "inv2":
@@ -342,7 +345,7 @@ def run_blocked(desc, seed):
                                 add(f"C18:blocked:{mode}:not-orthonormal", f"{where} {fld}: isometric factor deviates by {orth_dev(iso):.2e}")
                             k = min(U.shape[1], V.shape[1])
                             rec = U[:, :k] @ V[:, :k].T
-                            if not full and not close(rec, Mm, 1e-9, floor=1e-12):
+                            if (not full or U.shape[1] == V.shape[1]) and not close(rec, Mm, 1e-9, floor=1e-12):
                                 add(f"C18:blocked:{mode}:reconstruction", f"{where} {fld}: factors do not restore the allowed part (rel {rel_err(rec, Mm):.2e})")
                             qln_a, qrn_a = np.array(qln).reshape(len(qln), -1), np.array(qrn).reshape(len(qrn), -1)
                             for j in range(U.shape[1]):
